@@ -446,9 +446,18 @@ class Program:
                     text = open(os.path.join(root, fn), encoding="utf-8").read()
                 except OSError:
                     continue
-                for m in re.finditer(r"\bfn\s+([a-z_][A-Za-z0-9_]*)\s*<([^>(]*)>\s*\(", text):
+                for m in re.finditer(r"\bfn\s+([a-z_][A-Za-z0-9_]*)\s*<", text):
+                    i = m.end(); depth = 1
+                    while i < len(text) and depth:
+                        ch = text[i]
+                        if ch == "<":
+                            depth += 1
+                        elif ch == ">" and text[i - 1] != "-":
+                            depth -= 1
+                        i += 1
+                    inner = text[m.end():i - 1]
                     names = []
-                    for part in split_top(m.group(2)):
+                    for part in split_top(inner):
                         part = part.strip()
                         if not part or part.startswith("'") or part.startswith("const "):
                             continue
